@@ -567,6 +567,16 @@ static std::vector<char> assemble_eb(const vrt::J &row, int natt) {
   EncodeVarint<uint32_t>(1, &b);
   b.Encode((uint8_t)0); b.Encode((uint8_t)5); b.Encode((uint8_t)3); b.Encode((uint8_t)0); EncodeVarint<uint32_t>(0, &b);
   b.Encode((uint8_t)1);
+  if (natt == 2) {
+    // the same values as corrections of the parallelogram scheme under the wrap transform: exactly one value per vertex the traversal reports (the
+    // model's count), then the bounds
+    long entries = 0;
+    for (int x : row["vidx"].ints()) if (x >= 0) ++entries;
+    b.Encode((int8_t)1); b.Encode((int8_t)1); b.Encode((uint8_t)0); b.Encode((uint8_t)4);
+    for (long i = 0; i < 3 * entries; ++i) b.Encode((int32_t)(2 * (i + 1)));
+    b.Encode((int32_t)-50); b.Encode((int32_t)50);
+    return std::vector<char>(b.data(), b.data() + b.size());
+  }
   b.Encode((int8_t)-2); b.Encode((uint8_t)0); b.Encode((uint8_t)4);
   for (long i = 0; i < 3 * (3 * nf + 6); ++i) b.Encode((int32_t)(2 * (i + 1)));
   return std::vector<char>(b.data(), b.data() + b.size());
@@ -590,10 +600,10 @@ static std::string kd_points(const PointCloud &pc) {
   }
   return j + "]";
 }
-static std::string kd_pred(const vrt::J &row) {
+static std::string kd_pred(const vrt::J &row, const char *field = "pts") {
   std::string j = "[";
   size_t k = 0;
-  for (auto &p : row["pts"].a) {
+  for (auto &p : row[field].a) {
     if (k == 200) break;
     if (k++) j += ",";
     j += "[";
@@ -621,15 +631,16 @@ static void probe_eb(const vrt::J &row, long index, EbStats *st) {
   const std::string &pred = row["out"].s;
   // every row twice: with the position attribute (natt = 1) and without any attribute decoder (natt = 0); the header-only rows and the valence
   // rows that the oracle skipped are probed once
-  for (int natt = 1; natt >= 0; --natt) {
+  for (int natt = 2; natt >= 0; --natt) {
+    if (natt == 2 && row["ppos"].a.empty()) continue;   // the parallelogram form: rows for which the model predicts positions
     const bool kd = row["mode"].s == "kd";
     const bool ia = row["mode"].s == "ia";
     if (natt == 0 && (row["mode"].s == "lkd" || row["mode"].s == "lkq" || kd || ia)) continue;  // the kd-tree rows have one form only
-    if (natt == 1 && row["npd"].n > 1000) continue;     // index-width rows: the declared point count is the subject, not 25 MB of attribute storage
+    if (natt >= 1 && row["npd"].n > 1000) continue;     // index-width rows: the declared point count is the subject, not 25 MB of attribute storage
     bool enc_same = true;
     const std::vector<char> bytes = kd ? assemble_kd(row, &enc_same) : assemble_eb(row, natt);
     std::vector<char> buf(bytes);
-    if (getenv("VERIF_DUMP") && natt == 1) { std::ofstream df(getenv("VERIF_DUMP"), std::ios::binary); df.write(bytes.data(), (std::streamsize)bytes.size()); }
+    if (getenv("VERIF_DUMP") && natt == (getenv("VERIF_DUMP_NATT") ? atoi(getenv("VERIF_DUMP_NATT")) : 1)) { std::ofstream df(getenv("VERIF_DUMP"), std::ios::binary); df.write(bytes.data(), (std::streamsize)bytes.size()); }
     const uint64_t h0 = vrt::fnv1a(buf.data(), buf.size());
     Decoded d;
     bool tolerated_bad_alloc = false;
@@ -647,7 +658,7 @@ static void probe_eb(const vrt::J &row, long index, EbStats *st) {
         .s("pred", pred).s("pk", pred.substr(0, pred.find(':'))).i("pred_np", row["np"].n)
         .arr("pred_faces", row["faces"].ints()).b("ok", d.ok).b("modified", modified).b("bad_alloc", tolerated_bad_alloc)
         .arr("vidx", eb_vidx(d, natt, kd || ia)).arr("pred_vidx", row["vidx"].ints()).s("trav", row["trav"].s)
-        .b("enc_same", enc_same).raw("pts", (kd || ia) && d.ok ? kd_points(*d.pc) : "[]").raw("pred_pts", kd || ia ? kd_pred(row) : "[]")
+        .b("enc_same", enc_same).raw("pts", (kd || ia || natt == 2) && d.ok ? kd_points(*d.pc) : "[]").raw("pred_pts", kd || ia ? kd_pred(row) : natt == 2 ? kd_pred(row, "ppos") : "[]")
         .i("np", d.ok ? (long long)d.pc->num_points() : 0).arr("faces", faces).raw("sv", d.ok ? struct_json(*d.pc, d.is_mesh) : "{\"np\":0,\"nf\":0,\"maxface\":-1,\"atts\":[]}").end();
     fflush(out.f);
   }
